@@ -61,6 +61,15 @@ OPS = [
     ["L = [i + 1 for i in range(2)]"],
     ["W = [9]", "L, W = W, L", "mon.write(L[-1] + x)", "mon.write(W[-1] + x)"],
     ["W2 = [9, 8, 7, 6, 5, 4, 3]", "L, W2 = W2, L", "mon.write(W2[-1] + x)", "mon.write(L[-2] + x)"],
+    ["L.append(x)", "reset(len(L))", "mon.write(len(L))"],
+    ["L.append(1)", "L.append(2)", "reset2(len(L))", "mon.write(L[-1])"],
+    # swaps / rotations where a later target must receive the LONGER list: an index legal for the expected length
+    ["W3 = [9, 8, 7, 6, 5, 4, 3]", "W3, L = L, W3", "mon.write(L[6] + x)", "mon.write(L[-7] + x)", "mon.write(len(W3))"],
+    ["W4 = [9, 8, 7, 6, 5, 4, 3]", "W5 = [1]", "W5, W4, L = W4, L, W5", "mon.write(W5[6] + x)", "mon.write(W5[-7])", "mon.write(len(W4) + len(L))"],
+    ["W6 = [9, 8, 7, 6, 5, 4, 3, 2, 1]", "if len(L) < 9:", "    W6, L = L, W6", "mon.write(L[8] + x)"],
+    # and / or used for their value with an index guarded by the left operand
+    ["x = len(L) and L[0]", "y2 = (len(L) > 40 and L[40]) or -1", "mon.write(y2)"],
+    ["Q = [1]", "Q.remove(1)", "x = (len(Q) and Q[0]) + x", "y3 = (len(Q) > 0 and Q[-1]) or 7", "mon.write(y3)"],
     ["for j in range(2):", "    Z = [j, x]", "    x = Z[0] + Z[-1]"],
     ["for j in range(3):", "    Z2 = [i + j for i in range(3)]", "    mon.write(Z2[1])"],
     ["k = 0", "while k < 2:", "    k += 1", "    Y = [k]", "    Y.append(x)", "    mon.write(Y[-1])"],
@@ -87,7 +96,9 @@ OPS = [
 DEFS = ["def mk(n):", "    return [n, n + 1]", "def labels(n):", '    return ["a" + str(n), "b", "c"]']
 # helpers that mutate the sketch list: only defined in the programs that call them (a helper that binds or mutates a name
 # makes it a run-time value everywhere, which would keep the transpile-time length tracking out of every other program)
-DEFS_MUTATING = ["def drop(v):", "    L.remove(v)", "def grow(v):", "    L.append(v)"]
+DEFS_MUTATING = ["def drop(v):", "    L.remove(v)", "def grow(v):", "    L.append(v)",
+                 # `global` written inside the block that re-binds the list (it applies to the whole function)
+                 "def reset(v):", "    if v > 3:", "        global L", "        L = [v]", "def reset2(v):", "    for t in range(1):", "        global L", "        if v > 4:", "            L = [t, v]"]
 CORE = [0, 2, 3, 5, 9, 10, 11, 12, 13]
 CORE3 = [0, 1, 2, 3, 5, 9, 10, 11, 12, 13, 18, 20, 21, 23, 25, 28, 29, 31, 33, 34, 37, 38, 39]  # thorough: all k = 3 histories over these
 OBS = ["mon.write(x)", "mon.write(len(L))", "mon.write(L[0])", "mon.write(L[-1])"]
@@ -97,7 +108,7 @@ def build(init_i: int, seq: Sequence[int], placement: str) -> dict:
     init = INITS[init_i]
     ops = [ln for i in seq for ln in OPS[i]]
     head = ['a = analog_read("A0")', "x = a", 's = "s"', 'N = ["ab", "cd"]']
-    DEFS = globals()["DEFS"] + (DEFS_MUTATING if any("drop(" in ln or "grow(" in ln for ln in ops) else [])
+    DEFS = globals()["DEFS"] + (DEFS_MUTATING if any("drop(" in ln or "grow(" in ln or "reset(" in ln or "reset2(" in ln for ln in ops) else [])
     if placement == "setup":
         src = common.script(head + init + ops + OBS, None, prologue=PRO, defs=DEFS)
         passes = 0
